@@ -585,23 +585,33 @@ func (sched *StdScheduler) startExecutionLoop(ctx context.Context, dispatch chan
 	defer sched.wg.Done()
 	const maxTimerDuration = time.Duration(1<<63 - 1)
 	timer := time.NewTimer(maxTimerDuration)
-	// the time before which a queue that failed while a job was being
-	// fetched or rescheduled is not tried again
+	// the time before which a queue that has failed is not asked again
 	var retryAt time.Time
 	for {
-		queueSize, err := sched.queue.Size()
+		var queueSize int
+		var err error
+		// do not hammer a failing queue: until retryAt it is not even asked
+		// for its size, however often the wait is interrupted
+		backingOff := time.Now().Before(retryAt)
+		if !backingOff {
+			queueSize, err = sched.queue.Size()
+		}
 		switch {
+		case backingOff:
+			timer.Reset(time.Until(retryAt))
 		case err != nil:
 			sched.logger.Error("Failed to fetch queue size", "error", err)
+			retryAt = time.Now().Add(sched.opts.RetryInterval)
 			timer.Reset(sched.opts.RetryInterval)
-		case time.Now().Before(retryAt):
-			// do not hammer a failing queue
-			timer.Reset(time.Until(retryAt))
 		case queueSize == 0:
 			sched.logger.Trace("Queue is empty")
 			timer.Reset(maxTimerDuration)
 		default:
-			timer.Reset(sched.calculateNextTick())
+			nextTick, headErr := sched.calculateNextTick()
+			if headErr != nil {
+				retryAt = time.Now().Add(sched.opts.RetryInterval)
+			}
+			timer.Reset(nextTick)
 		}
 		select {
 		case <-timer.C:
@@ -652,7 +662,9 @@ func (sched *StdScheduler) startWorkers(ctx context.Context, dispatch <-chan Sch
 	}
 }
 
-func (sched *StdScheduler) calculateNextTick() time.Duration {
+// calculateNextTick returns the time to wait for the head of the queue. If the
+// queue fails to tell its head, it returns the retry interval and the error.
+func (sched *StdScheduler) calculateNextTick() (time.Duration, error) {
 	var nextTickDuration time.Duration
 	scheduledJob, err := sched.queue.Head()
 	if err != nil {
@@ -661,10 +673,10 @@ func (sched *StdScheduler) calculateNextTick() time.Duration {
 			// the retry interval (or as soon as the queue is modified)
 			// rather than at once
 			sched.logger.Debug("Queue is empty")
-		} else {
-			sched.logger.Error("Failed to calculate next tick", "error", err)
+			return sched.opts.RetryInterval, nil
 		}
-		return sched.opts.RetryInterval
+		sched.logger.Error("Failed to calculate next tick", "error", err)
+		return sched.opts.RetryInterval, err
 	}
 
 	nextRunTime := scheduledJob.NextRunTime()
@@ -675,7 +687,7 @@ func (sched *StdScheduler) calculateNextTick() time.Duration {
 	sched.logger.Trace("Next tick", "job", scheduledJob.JobDetail().jobKey.String(),
 		"after", nextTickDuration)
 
-	return nextTickDuration
+	return nextTickDuration, nil
 }
 
 func (sched *StdScheduler) executeAndReschedule(ctx context.Context, dispatch chan<- ScheduledJob) error {
